@@ -12,6 +12,7 @@ import (
 	"crypto/sha256"
 	"encoding/json"
 	"fmt"
+	"math"
 	"math/rand"
 	"os"
 	"strconv"
@@ -77,6 +78,17 @@ func VpQps(class string) float64 {
 		return -1
 	case "tiny":
 		return 1e-10
+	case "nan":
+		return math.NaN()
+	case "edge":
+		// 1s/qps is exactly 2^63 ns: the first interval that does not fit a time.Duration
+		return 1e9 / 9223372036854775808.0
+	case "denorm":
+		return 5e-324
+	case "pinf":
+		return math.Inf(1)
+	case "ninf":
+		return math.Inf(-1)
 	case "nano":
 		return 2e-9
 	case "small":
